@@ -109,10 +109,21 @@ func TestVerifC02_NamespaceData(t *testing.T) {
 		}
 
 		// --- forgery
-		family := rapid.SampledFrom([]string{
-			"droprow", "duprow", "reorderrows", "appendrow", "empty", "dropshare-reproved", "dropshare", "truncate-last",
-			"inclusion->absence", "absence->inclusion", "otherns-entry", "otherrow-entry", "sibling", "extrashare", "bytes", "honest",
-		}).Draw(t, "family")
+		// only families that apply to this honest answer are drawn (construction, not rejection)
+		fams := []string{"honest", "appendrow", "sibling", "bytes", "empty"}
+		if len(honest) > 0 {
+			fams = append(fams, "droprow", "duprow", "otherrow-entry", "otherns-entry")
+			if len(honest) > 1 {
+				fams = append(fams, "reorderrows")
+			}
+			if len(refShares) > 0 {
+				fams = append(fams, "dropshare-reproved", "dropshare-reproved", "dropshare", "truncate-last", "extrashare",
+					"inclusion->absence", "inclusion->absence")
+			} else {
+				fams = append(fams, "absence->inclusion", "absence->inclusion")
+			}
+		}
+		family := rapid.SampledFrom(fams).Draw(t, "family")
 		resp := cloneND(honest)
 		ok := true
 		rowOf := func(i int) int { return refRows[i] }
@@ -157,15 +168,21 @@ func TestVerifC02_NamespaceData(t *testing.T) {
 				ok = false
 				break
 			}
-			i := rapid.IntRange(0, len(resp)-1).Draw(t, "rowi")
-			if family == "truncate-last" {
-				i = len(resp) - 1
+			var withShares []int
+			for x := range resp {
+				if len(resp[x].Shares) > 0 {
+					withShares = append(withShares, x)
+				}
 			}
-			e := resp[i]
-			if len(e.Shares) == 0 {
+			if len(withShares) == 0 {
 				ok = false
 				break
 			}
+			i := withShares[rapid.IntRange(0, len(withShares)-1).Draw(t, "rowi")]
+			if family == "truncate-last" {
+				i = withShares[len(withShares)-1]
+			}
+			e := resp[i]
 			switch family {
 			case "extrashare":
 				// add the neighbouring committed share of the row (belongs to another namespace or is a duplicate)
